@@ -6,6 +6,7 @@ open Occa Occa.Lex Occa.Proto
       T <hex>        tokenize the byte string              -> e=<errors> <tok> …
       R <item> …     build tokens, print them, re-tokenize -> t=<hex text> e=<errors> <tok> …
       E <q> <hex>    escape    U <q> <hex>   unescape      G <hex>  string / char encoding
+      H <hex>        getHeader() at the start of the source -> h=<hex> p=<offset> e=<errors>
     token:  I:<hex> | P:<hex> | O:<id> | N | S:<enc>:<hex>:<hex> | C:<enc>:<hex>:<hex> | M:<hex> | U:<hex> -/
 
 def chars (bs : List Nat) : Str := bs.map Char.ofNat
@@ -55,6 +56,14 @@ def step (_ : Unit) (toks : List String) : Unit × String :=
       | some its =>
         let text := its.flatMap fun | .inl t => printTok t | .inr w => w
         ((), "t=" ++ hexS text ++ " " ++ showRun (tokenizeBytes text))
+      | none => ((), "bad-op")
+  | ["H", h] => match unhex h with
+      | some b =>
+        let s := cstr (chars b)
+        ((), match getHeader s with
+          | .error .oob => "TRAP-OOB"
+          | .error .fuel => "TRAP-FUEL"
+          | .ok (v, e, r') => "h=" ++ hexS v ++ " p=" ++ toString (s.length - r'.length) ++ " e=" ++ toString e)
       | none => ((), "bad-op")
   | ["E", q, h] => match unhex q, unhex h with
       | some [q], some b => ((), hexS (escape (Char.ofNat q) (chars b)))
